@@ -77,21 +77,22 @@ ItemsV == << E1, E2, Dve(4, 5, 1, 1, 2, 3),
              [Dve(1, 4, 1, 1, 2, 3) EXCEPT !.a.sig = 4, !.b.sig = 4],
              [E2 EXCEPT !.a.i = 1],
              Dve(5, 2, 1, 1, 2, 3),
-             Dve(5, 4, 2, 1, 2, 3),
-             Dve(4, 6, 1, 1, 2, 3),
+             Dve(5, 4, 2, 1, 2, 5),
+             Dve(4, 6, 1, 1, 2, 5),
              Dve(5, 5, 1, 2, 0, 2) >>
 """
 ITEMS_DOC = ("items: 1 = validator 4 at height 2 (expires first), 2 = validator 4 at height 4 (nil / block precommits), 3 = validator 4 at "
              "height 5 (the height being decided at the start: reported by consensus before block 5 exists), 4 = item 2 with a junk second "
              "signature, 5 = correct validator 1 framed with votes signed by validator 4, 6 = item 2 with a wrong validator index, 7 = "
-             "validator 5 at height 2 (joins the set only at height 4), 8 = validator 5 at height 4, 9 = validator 4 at height 6, 10 = validator 5 at "
+             "validator 5 at height 2 (joins the set only at height 4), 8 = validator 5 at height 4, 9 = validator 4 at height 6 (8 and 9: two votes for the SAME block hash with different part-set hashes, "
+             "reported by consensus in both arrival orders through the real NewDuplicateVoteEvidence), 10 = validator 5 at "
              "height 5 (second and third equivocations while their height is being decided); consensus reports 1, 2, 3, 8, 9, 10, and 2, 3, 9, "
              "10 with ITS stamp (time off the block time, total of another set) which the pool has to replace by the facts of the height")
 
 
 def cfg_pool(top, ages, lists, l0, depth):
     return ("SPECIFICATION Spec\nCONSTANTS\n  Top = %d\n  Power <- PowerV\n  MaxAgeBlocks = %d\n  MaxAgeDur = %d\n  Items <- ItemsV\n"
-            "  ConsItems = {1, 2, 3, 8, 9, 10}\n  RawItems = {2, 3, 9, 10}\n  Lists <- ListsV\n  L0 = %d\n  Depth = %d\nVIEW View\nINVARIANT Inv\nACTION_CONSTRAINT Dump\n") % (
+            "  ConsItems = {1, 2, 3, 8, 9, 10}\n  RawItems = {2, 3, 9, 10}\n  OrdItems = {8, 9}\n  Lists <- ListsV\n  L0 = %d\n  Depth = %d\nVIEW View\nINVARIANT Inv\nACTION_CONSTRAINT Dump\n") % (
         top, ages[0], ages[1], l0, depth)
 
 
@@ -107,7 +108,8 @@ def run(c):
     c.rule = (
         "Verify: every case of MC_EvidenceVerify - a well-formed duplicate-vote evidence for (validator in / not in / joining / leaving the set, "
         "height before / after the two set changes, round, type, ordered block pair incl. nil) with up to D mutations out of 75 atoms (either "
-        "vote's address, index, height, round, type incl. a non-vote type, block id incl. a malformed one, 10 signature classes: other key, junk, "
+        "vote's address, index, height, round, type incl. a non-vote type, block id incl. a malformed one, the same block hash with another "
+        "part-set hash and with another part-set total only, 10 signature classes: other key, junk, "
         "empty, genuine signature over sign bytes that differ in one of height / round / type / block / vote time / chain id; stated power, "
         "total, evidence time on and off a block time) - is built as a REAL DuplicateVoteEvidence with real secp256k1 signatures, sent through "
         "the evidence reactor's wire codec (ValidateBasic) into AddEvidence of a fresh real Pool looking at a real chain (3 real nodes, two "
@@ -117,7 +119,9 @@ def run(c):
         "replayed from a fresh real Pool; compared: result class of every call, pending / committed marks / gossip list / Size(), and "
         "PendingEvidence = the proposable items under every byte limit (exact prefix sizes and one byte less).  Net: every complete behaviour of "
         "MC_EvidenceNet (per height: the Byzantine validator shows conflicting prevotes / precommits of the height being decided or late "
-        "precommits of the previous height to one or all correct nodes, optionally again one height later, or offers a block whose evidence "
+        "precommits of the previous height to one or all correct nodes (also two votes for one block hash with two part-set hashes in both "
+        "arrival orders, and two votes that differ only in the part-set total = no equivocation), optionally again one height later, or "
+        "offers a block whose evidence "
         "list frames a correct validator / replays committed evidence / carries an unseen real equivocation once, twice or with a junk "
         "signature; one node restarts) executed on 3 REAL "
         "consensus nodes + a syncing node: compared per height: evidence the observers' tryAddVote reported, block evidence, DoubleSign calls, "
@@ -150,16 +154,19 @@ def run(c):
     # ------------------------------------------------------------------ MC_EvidenceVerify
     pairs3 = "BPairsV == {<<0, 2>>, <<0, 3>>, <<2, 3>>}\n"
     pairs1 = "BPairsV == {<<2, 3>>}\n"
+    # same block hash: two part-set hashes (2/5) and two part-set totals only (2/6), in both field orders
+    pairs_same = "BPairsV == {<<2, 3>>, <<2, 5>>, <<5, 2>>, <<2, 6>>, <<6, 2>>}\n"
     vruns = [
         # tag, ages, pairs, bvals, bheights, brounds, btypes, poolh, hdom, D, stride
         ("verify-d1", AGES[0], pairs3, [1, 4, 5, 6], [2, 5, 7], [1, 2], [1, 2], [4, 5, 6, 8], [0, 2, 3, 5, 9], 1, 1),
-        ("verify-d1-blocksbind", AGES[1], pairs1, [1, 4, 5], [2, 5], [1], [1, 2], [5, 6, 8], [0, 3, 9], 1, 1),
+        ("verify-d1-blocksbind", AGES[1], pairs_same, [1, 4, 5], [2, 5], [1], [1, 2], [5, 6, 8], [0, 3, 9], 1, 1),
         ("verify-d2", AGES[0], pairs1, [1, 4, 5], [2, 5], [1], [1], [5, 6], [0, 2, 3, 5, 9], 2, 1),
     ]
     if th:
         vruns += [
             ("verify-d2-wide", AGES[0], pairs3, [1, 4, 5, 6], [2, 5, 7], [1], [1, 2], [5, 6, 8], [0, 3, 9], 2, 3),
             ("verify-d3", AGES[1], pairs1, [4], [2, 5], [1], [2], [6], [3, 9], 3, 2),
+            ("verify-d2-samehash", AGES[0], pairs_same, [4], [5], [1], [1], [6], [3, 9], 2, 1),
         ]
     for tag, ages, pairs, bv, bh, br, bt, ph, hd, d, stride in vruns:
         files = mcgen("MC_EvidenceVerify", pairs)
@@ -212,7 +219,7 @@ def run(c):
         f2 = dict(files)
         f2["MCgen.cfg"] = cfg_net(top, AGES[0], "PropV", 4, [2, 3], [1, 2], 1, 1).replace("ACTION_CONSTRAINT Dump\n", "") + "INVARIANT %s\n" % inv
         must_fail(c, c.tlc("evidence", "MCgen.cfg", module="MCgen", files=f2, timeout=900, workers=4, tag="reach " + inv), "net", inv)
-    e = dict(env0, EV_DUMP=dump, EV_STRIDE=(4 if th else 61), EV_TAG="net")
+    e = dict(env0, EV_DUMP=dump, EV_STRIDE=(5 if th else 83), EV_TAG="net")
     c.absorb(c.gotest("evidence", "TestNetReplay", env=e, timeout=5000, tag="real nodes: net"))
     os.remove(dump)
 
@@ -246,7 +253,7 @@ def run(c):
     dump = os.path.join(c.scratch, "net-wall.dump")
     r = c.tlc("evidence", "MCgen.cfg", module="MCgen", files=files, dump_to=dump, timeout=3000, workers=workers, tag="net wall-clock")
     must_hold(c, r, "net wall-clock")
-    e = dict(EV_WORLD=json.dumps(WORLD_WALL), EV_DUMP=dump, EV_STRIDE=(3 if quick else 5), EV_TAG="net-wall-clock")
+    e = dict(EV_WORLD=json.dumps(WORLD_WALL), EV_DUMP=dump, EV_STRIDE=(4 if quick else 6), EV_TAG="net-wall-clock")
     c.absorb(c.gotest("evidence", "TestNetReplay", env=e, timeout=3000, tag="real nodes: net wall-clock"))
     os.remove(dump)
     c.exhaustive = True
